@@ -1,10 +1,16 @@
 import BreezyVerif.Lemmas.C15
 import BreezyVerif.Lemmas.C15Merge
+import BreezyVerif.Lemmas.C15Tree
 /-!
 C15 — shelving removes exactly the selected changes, the shelf stores exactly
 those, unshelving onto the unchanged result restores the tree; selected and
 unselected hunks partition the text change; shelf ids are fresh, monotone and
-never renumbered.  All statements are for every tree (a function
+never renumbered, and every shelf keeps what was shelved under its id until it
+is deleted.  `shelve_unshelve_restores` is the tree-level statement for the
+repaired code (an accepted selection is closed, both trees are trees, reading
+the shelf back and merging it restores every entry); `unclosed_accepted_witness`
+and `missing_unversioned_witness` exhibit the two inputs on which /repo HEAD
+violates the property.  All statements are for every tree (a function
 `Id → Option Entry`, no bound on the number of ids), every selection and every
 text segmentation; the hypotheses are the decidable predicates of
 `Lemmas/C15.lean` (`norm`, `shapeOk`, `execSafe`, `recOk`).
@@ -172,9 +178,13 @@ changes of the new working tree against the basis are the unselected ones, the
 new working tree differs from the old one by exactly the selected ones, and —
 when the selection is accepted (`shelve` = ok, i.e. the remaining tree is
 well-formed) — these are the trees `shelve` returns; the stored tree carries
-exactly the selected changes. -/
+exactly the selected changes.  (`shelve_nothing`, `shelve_all` and
+`shelve_all_eq_basis` show `hacc` / `hcl` for the two extreme selections of any
+pair of well-formed trees; `shelve_values` gives the attribute VALUES.) -/
 theorem shelve_removes_exactly (v : Variant) (ids : List Id) (s : TSel) (b w : Tree) (h : TreeOk v s b w)
-    (hacc : wf ids (workTree v s b w) = true) (hpc : v.pathCheck = true ∨ reoccupied ids s b w = []) :
+    (hacc : wf ids (workTree v s b w) = true) (hpc : v.pathCheck = true ∨ reoccupied ids s b w = [])
+    (hcl : wf ids (shelfTree v s b w) = true ∨
+      (v.closedCheck = false ∧ hasNonDirParent ids (shelfTree v s b w) = false)) :
     shelve v ids s b w = .ok (workTree v s b w, shelfTree v s b w) ∧
     ∀ i, delta (b i) (workTree v s b w i) = (delta (b i) (w i)).remove (s i) ∧
          delta (workTree v s b w i) (w i) = (delta (b i) (w i)).restrict (s i) ∧
@@ -182,9 +192,10 @@ theorem shelve_removes_exactly (v : Variant) (ids : List Id) (s : TSel) (b w : T
          delta (shelfTree v s b w i) (w i) = (delta (b i) (w i)).remove (s i) := by
   constructor
   · unfold shelve
-    rcases hpc with hp | hp
-    · simp [hp, hacc]
-    · simp [hp, hacc]
+    rcases hpc with hp | hp <;> rcases hcl with hc | hc
+    all_goals first
+      | simp [hp, hc, hacc, wf_noNonDirParent ids _ hc]
+      | simp [hp, hc.1, hc.2, hacc]
   · intro i
     obtain ⟨hb, hw, hs, hx⟩ := h i
     have h1 := shelveWork_delta v (s i) (b i) (w i) hb hw hs hx
@@ -208,15 +219,223 @@ theorem unshelve_restores (v : Variant) (s : TSel) (b w : Tree) (rec : Id → Bo
   · funext i; simp [unshelve, hm]
   · intro i; simp [conflictsAt, hm]
 
-/-- with the repaired variant no hypothesis on executable bits or on the recorded bits is left -/
-theorem unshelve_restores_fixed (s : TSel) (b w : Tree) (rec : Id → Bool)
-    (hn : ∀ i, norm (b i) = true ∧ norm (w i) = true ∧ shapeOk (s i) (b i) (w i) = true) :
-    unshelve .fixed b (workTree .fixed s b w) rec (shelfTree .fixed s b w) = w := by
-  refine (unshelve_restores .fixed s b w rec (fun i => ?_) (fun i => ?_)).1
+/-- **Unshelving restores, tree level, repaired code.**  For a closed selection
+(the remaining tree and the stored tree are trees) the shelf can be read back
+and merging it into the unchanged result gives back the working tree — every
+id, every attribute, no conflict; no hypothesis on executable bits or on the
+recorded bits is left. -/
+theorem unshelve_restores_fixed (ids : List Id) (s : TSel) (b w : Tree) (rec : Id → Bool)
+    (hn : ∀ i, norm (b i) = true ∧ norm (w i) = true ∧ shapeOk (s i) (b i) (w i) = true)
+    (hc : closed .fixed ids s b w = true) :
+    unshelveTree .fixed ids b (workTree .fixed s b w) rec (shelfTree .fixed s b w) = some w ∧
+    ∀ i, conflictsAt .fixed b (workTree .fixed s b w) rec (shelfTree .fixed s b w) i = [] := by
+  have h := unshelve_restores .fixed s b w rec (fun i => ?_) (fun i => ?_)
+  · simp only [closed, Bool.and_eq_true] at hc
+    exact ⟨by simp [unshelveTree, hc.2, h.1], h.2⟩
   · obtain ⟨h1, h2, h3⟩ := hn i
     refine ⟨h1, h2, h3, ?_⟩
     cases b i <;> cases w i <;> simp [execSafe, Variant.fixed]
   · cases workTree Variant.fixed s b w i <;> simp [recOk, Variant.fixed]
+
+/-- a variant with the closedness check accepts only closed selections, and returns the two trees -/
+theorem shelve_ok_closed (v : Variant) (ids : List Id) (s : TSel) (b w : Tree) (hv : v.closedCheck = true)
+    (r : Tree × Tree) (h : shelve v ids s b w = .ok r) :
+    closed v ids s b w = true ∧ r = (workTree v s b w, shelfTree v s b w) := by
+  unfold shelve at h
+  by_cases h1 : (!v.pathCheck && !(reoccupied ids s b w).isEmpty) = true
+  · simp [h1] at h
+  · by_cases h2 : wf ids (shelfTree v s b w) = true
+    · by_cases h3 : wf ids (workTree v s b w) = true
+      · simp [h1, h2, h3, hv] at h
+        exact ⟨by simp [closed, h2, h3], h.symm⟩
+      · simp [h1, h2, h3, hv] at h
+    · simp [h1, h2, hv] at h
+
+/-- **Shelve, then unshelve, restores (repaired code, every tree, every selection).**
+Whenever `shelve` accepts a selection, the remaining tree and the stored tree
+are trees, and reading the shelf back and merging it into the unchanged result
+gives back the working tree without conflicts. -/
+theorem shelve_unshelve_restores (ids : List Id) (s : TSel) (b w : Tree) (rec : Id → Bool)
+    (hn : ∀ i, norm (b i) = true ∧ norm (w i) = true ∧ shapeOk (s i) (b i) (w i) = true)
+    (w' st : Tree) (h : shelve .fixed ids s b w = .ok (w', st)) :
+    wf ids w' = true ∧ wf ids st = true ∧ unshelveTree .fixed ids b w' rec st = some w ∧
+    ∀ i, conflictsAt .fixed b w' rec st i = [] := by
+  obtain ⟨hc, hr⟩ := shelve_ok_closed .fixed ids s b w rfl _ h
+  simp only [Prod.mk.injEq] at hr
+  obtain ⟨rfl, rfl⟩ := hr
+  have := unshelve_restores_fixed ids s b w rec hn hc
+  simp only [closed, Bool.and_eq_true] at hc
+  exact ⟨hc.1, hc.2, this.1, this.2⟩
+
+/-! ### the two extreme selections -/
+
+/-- **Shelving nothing changes nothing**: accepted for every tree, the working
+tree stays as it is and the stored tree is the basis -/
+theorem shelve_nothing (v : Variant) (ids : List Id) (b w : Tree) (hw : wf ids w = true)
+    (hb : wf ids b = true) :
+    shelve v ids (fun _ => Sel.nothing) b w = .ok (w, b) := by
+  have h1 : workTree v (fun _ => Sel.nothing) b w = w := funext fun i => shelveWork_nothing v (b i) (w i)
+  have h2 : shelfTree v (fun _ => Sel.nothing) b w = b := funext fun i => shelveShelf_nothing v (b i) (w i)
+  have h3 : reoccupied ids (fun _ => Sel.nothing) b w = [] := by simp [reoccupied, Sel.nothing]
+  unfold shelve
+  simp [h1, h2, h3, hw, hb, wf_noNonDirParent]
+
+/-- **Shelving everything**: accepted for every pair of trees; the working tree
+becomes the basis and the stored tree the old working tree, up to the one
+change that is not shelvable (a chmod of a file that stays a file travels
+with the working tree) -/
+theorem shelve_all (v : Variant) (ids : List Id) (s : TSel) (b w : Tree) (hv : v.keepExec = true)
+    (hs : ∀ i, (s i).isAll = true) (hn : ∀ i, norm (b i) = true ∧ norm (w i) = true)
+    (hb : wf ids b = true) (hw : wf ids w = true) (hpc : v.pathCheck = true ∨ reoccupied ids s b w = []) :
+    shelve v ids s b w = .ok (fun i => withExecOf (b i) (w i), fun i => withExecOf (w i) (b i)) := by
+  have h1 : workTree v s b w = fun i => withExecOf (b i) (w i) :=
+    funext fun i => shelveWork_all v (s i) (b i) (w i) hv (hs i) (hn i).1
+  have h2 : shelfTree v s b w = fun i => withExecOf (w i) (b i) :=
+    funext fun i => shelveShelf_all v (s i) (b i) (w i) hv (hs i) (hn i).2
+  have h3 : wf ids (fun i => withExecOf (b i) (w i)) = true := by
+    rw [wf_congr ids _ b (fun i => withExecOf_skel (b i) (w i))]; exact hb
+  have h4 : wf ids (fun i => withExecOf (w i) (b i)) = true := by
+    rw [wf_congr ids _ w (fun i => withExecOf_skel (w i) (b i))]; exact hw
+  unfold shelve
+  rcases hpc with hp | hp <;> simp [h1, h2, h3, h4, hp, wf_noNonDirParent]
+
+/-- no file that stays a file has an uncommitted chmod -/
+def execAgree (b w : Tree) : Prop :=
+  ∀ i be we, b i = some be → w i = some we → be.kind = .file → we.kind = .file → be.exec = we.exec
+
+/-- ... so without a pending chmod, shelving everything leaves exactly the basis and stores exactly the working tree -/
+theorem shelve_all_eq_basis (v : Variant) (ids : List Id) (s : TSel) (b w : Tree) (hv : v.keepExec = true)
+    (hs : ∀ i, (s i).isAll = true) (hn : ∀ i, norm (b i) = true ∧ norm (w i) = true)
+    (hb : wf ids b = true) (hw : wf ids w = true) (hpc : v.pathCheck = true ∨ reoccupied ids s b w = [])
+    (hx : execAgree b w) : shelve v ids s b w = .ok (b, w) := by
+  rw [shelve_all v ids s b w hv hs hn hb hw hpc]
+  have e1 : (fun i => withExecOf (b i) (w i)) = b := by
+    funext i
+    cases hbi : b i with
+    | none => simp [withExecOf]
+    | some be =>
+      cases hwi : w i with
+      | none => simp [withExecOf]
+      | some we =>
+        have := hx i be we hbi hwi
+        obtain ⟨p, n, k, c, e⟩ := be
+        simp only [withExecOf, Option.some.injEq, Entry.mk.injEq, true_and]
+        split
+        · rename_i hk; exact (this hk.1 hk.2).symm
+        · rfl
+  have e2 : (fun i => withExecOf (w i) (b i)) = w := by
+    funext i
+    cases hwi : w i with
+    | none => simp [withExecOf]
+    | some we =>
+      cases hbi : b i with
+      | none => simp [withExecOf]
+      | some be =>
+        have := hx i be we hbi hwi
+        obtain ⟨p, n, k, c, e⟩ := we
+        simp only [withExecOf, Option.some.injEq, Entry.mk.injEq, true_and]
+        split
+        · rename_i hk; exact this hk.2 hk.1
+        · rfl
+  rw [e1, e2]
+
+example :
+    let b := wtree [(0, ⟨none, 0, .dir, [], false⟩), (1, ⟨some 0, 1, .file, [7], false⟩)]
+    let w := wtree [(0, ⟨none, 0, .dir, [], false⟩), (1, ⟨some 0, 2, .file, [8], false⟩), (2, ⟨some 0, 1, .dir, [], false⟩)]
+    let s : TSel := fun _ => ⟨true, true, .whole, false⟩
+    wf [0, 1, 2] b = true ∧ wf [0, 1, 2] w = true ∧ (s 1).isAll = true ∧ reoccupied [0, 1, 2] s b w = [] ∧
+    (match shelve .fixed [0, 1, 2] s b w with | .ok (w', st) => w' 1 == b 1 && w' 2 == none && st 1 == w 1 | _ => false) = true := by
+  decide
+
+/-! ### attribute values -/
+
+/-- **what shelving leaves and stores, value by value** (the `delta` theorems say
+WHICH atoms differ; this one pins every attribute): an unselected addition /
+deletion stays, a selected one is undone in the tree and stored whole; for an id
+present on both sides the position is the basis's iff the rename is selected,
+kind and content are the basis's iff the content change is selected (hunk by
+hunk for a hunk selection), the executable bit stays with the side whose file
+survives; the stored entry is the mirror image -/
+theorem shelve_values (v : Variant) (s : Sel) (b w : Option Entry) (hv : v.keepExec = true)
+    (hb : norm b = true) (hw : norm w = true) (hs : shapeOk s b w = true) :
+    match b, w with
+    | none, none => shelveWork v s b w = none ∧ shelveShelf v s b w = none
+    | none, some we =>
+      if s.whole then shelveWork v s b w = none ∧ shelveShelf v s b w = some we
+      else shelveWork v s b w = some we ∧ shelveShelf v s b w = none
+    | some be, none =>
+      if s.whole then shelveWork v s b w = some be ∧ shelveShelf v s b w = none
+      else shelveWork v s b w = none ∧ shelveShelf v s b w = some be
+    | some be, some we =>
+      ∃ r t, shelveWork v s b w = some r ∧ shelveShelf v s b w = some t ∧
+        r.parent = (if s.rename then be.parent else we.parent) ∧ r.name = (if s.rename then be.name else we.name) ∧
+        t.parent = (if s.rename then we.parent else be.parent) ∧ t.name = (if s.rename then we.name else be.name) ∧
+        match s.content with
+        | .none => r.kind = we.kind ∧ r.content = we.content ∧ r.exec = we.exec ∧
+            t.kind = be.kind ∧ t.content = be.content ∧ t.exec = be.exec
+        | .whole => r.kind = be.kind ∧ r.content = be.content ∧ t.kind = we.kind ∧ t.content = we.content ∧
+            r.exec = (if be.kind = .file ∧ we.kind = .file then we.exec else be.exec) ∧
+            t.exec = (if be.kind = .file ∧ we.kind = .file then be.exec else we.exec)
+        | .chunks bits => r.kind = .file ∧ r.content = pickChunks bits be.content we.content ∧ r.exec = we.exec ∧
+            t.kind = .file ∧ t.content = pickChunks bits we.content be.content ∧ t.exec = be.exec := by
+  cases b with
+  | none =>
+    cases w with
+    | none => simp [shelveWork, shelveShelf]
+    | some we =>
+      obtain ⟨p', n', k', c', e'⟩ := we
+      cases hsw : s.whole <;> cases k' <;> simp [norm] at hw <;> simp_all [shelveWork, shelveShelf, recreatedExec]
+  | some be =>
+    obtain ⟨p, n, k, c, e⟩ := be
+    cases w with
+    | none =>
+      cases hsw : s.whole <;> cases hk : s.kept <;> cases k <;> simp [norm] at hb <;>
+        simp_all [shelveWork, shelveShelf, recreatedExec]
+    | some we =>
+      obtain ⟨p', n', k', c', e'⟩ := we
+      cases hc : s.content with
+      | none => simp [shelveWork, shelveShelf, hc]
+      | whole =>
+        cases k <;> cases k' <;> simp [norm] at hb hw <;> simp_all [shelveWork, shelveShelf, recreatedExec]
+      | chunks bits =>
+        simp [shapeOk, CSel.shapeOk, hc] at hs
+        obtain ⟨⟨⟨hk1, hk2⟩, _⟩, _⟩ := hs
+        subst hk1 hk2
+        simp [shelveWork, shelveShelf, hc]
+
+/-! ### versioned files that are missing from disk -/
+
+/-- a missing file's versioning comes back iff its deletion was NOT shelved -/
+theorem missing_restored_iff (v : Variant) (s : TSel) (b w : Tree) (miss : Id → Bool) (i : Id)
+    (hm : miss i = true → w i = none ∧ (b i).isSome = true) :
+    unshelveMissing b (shelfTree v s b w) (shelveMissing s miss) i = miss i ↔
+      ¬ (miss i = true ∧ (s i).whole = true) := by
+  cases hmi : miss i with
+  | false => simp [unshelveMissing, shelveMissing, hmi]
+  | true =>
+    obtain ⟨hw, hb⟩ := hm hmi
+    cases hbi : b i with
+    | none => simp [hbi] at hb
+    | some be =>
+      cases hsw : (s i).whole <;>
+        simp [unshelveMissing, shelveMissing, hmi, hsw, shelfTree, shelveShelf, hw, hbi]
+
+/-- `rm t; shelve; unshelve`: the file is gone again but no longer versioned
+(reproduced on /repo by the check, family missing-file-unversioned-by-unshelve) -/
+theorem missing_unversioned_witness :
+    let b := wtree [(0, ⟨none, 0, .dir, [], false⟩), (1, ⟨some 0, 1, .file, [7], false⟩)]
+    let w := wtree [(0, ⟨none, 0, .dir, [], false⟩)]
+    let miss : Id → Bool := fun i => i == 1
+    let s : TSel := fun i => if i = 1 then ⟨true, false, .none, false⟩ else Sel.nothing
+    (match shelve .fixed [0, 1] s b w with
+     | .ok (w', st) =>
+       w' 1 == b 1 && !shelveMissing s miss 1 &&
+       (match unshelveTree .fixed [0, 1] b w' (fun _ => false) st with
+        | some u => u 0 == w 0 && u 1 == w 1
+        | none => false) &&
+       unshelveMissing b st (shelveMissing s miss) 1 != miss 1
+     | _ => false) = true := by
+  decide
 
 /-! ### the defects of the current code (witnesses; reproduced on the real code by the check) -/
 
@@ -255,6 +474,21 @@ theorem reoccupied_witness :
     (match shelve .current [0, 1, 2] s b w with | .error .reoccupied => true | _ => false) = true ∧
     (match shelve .fixed [0, 1, 2] s b w with | .ok _ => true | _ => false) = true := by decide
 
+/-- /repo HEAD: a file is added in an added directory and only the file's
+addition is shelved.  The selection is accepted and the file leaves the tree,
+but the stored tree is not a tree (the file's parent is absent) and cannot be
+read back; the repaired code refuses the selection (reproduced on /repo by the
+check, family unclosed-selection-accepted) -/
+theorem unclosed_accepted_witness :
+    let b := wtree [(0, ⟨none, 0, .dir, [], false⟩)]
+    let w := wtree [(0, ⟨none, 0, .dir, [], false⟩), (1, ⟨some 0, 1, .dir, [], false⟩), (2, ⟨some 1, 2, .file, [7], false⟩)]
+    let s : TSel := fun i => if i = 2 then ⟨true, false, .none, false⟩ else Sel.nothing
+    (match shelve .head [0, 1, 2] s b w with
+     | .ok (w', st) => wf [0, 1, 2] w' && !wf [0, 1, 2] st && w' 2 == none &&
+         (unshelveTree .head [0, 1, 2] b w' (fun _ => false) st).isNone
+     | _ => false) = true ∧
+    (match shelve .fixed [0, 1, 2] s b w with | .error .unclosed => true | _ => false) = true := by decide
+
 /-! ### shelf ids -/
 /-- the next id exceeds every active id (so it is fresh), whatever the listing order -/
 theorem Mgr.nextId_fresh (a : List Nat) : (∀ x ∈ a, x < nextId a) ∧ nextId a ∉ a := by
@@ -285,6 +519,23 @@ theorem Mgr.shelf_ids_unique (a : List Nat) (ops : List Op) (hnd : a.Nodup) : (r
     cases hs : step a op with
     | none => exact ih a hnd
     | some a' => exact ih a' (step_nodup a op hnd a' hs)
+
+/-- **Shelves survive until deleted**: along every sequence of shelve / delete
+operations (failed deletions included) a shelf that is not deleted keeps its
+id and what was shelved under it -/
+theorem Mgr.survives (sh : Shelves) (ops : List OpC) (k p : Nat) (h : lookup sh k = some p)
+    (hnd : OpC.delete k ∉ ops) : lookup (runC sh ops) k = some p := by
+  induction ops generalizing sh with
+  | nil => simpa [runC]
+  | cons op ops ih =>
+    simp only [List.mem_cons, not_or] at hnd
+    simp only [runC]
+    cases hs : stepC sh op with
+    | none => exact ih sh h hnd.2
+    | some sh' => exact ih sh' (stepC_keeps sh op k p h (fun e => hnd.1 e.symm) sh' hs) hnd.2
+
+example : Mgr.lookup (Mgr.runC [(2, 20), (1, 10)] [.new 30, .delete 2, .new 40, .delete 9]) 1 = some 10 ∧
+    Mgr.runC [(2, 20), (1, 10)] [.new 30, .delete 2, .new 40, .delete 9] = [(4, 40), (3, 30), (1, 10)] := by decide
 
 /-- ids are allocated monotonically while a shelf stays: a new id exceeds every id still active -/
 theorem Mgr.new_after_new (a : List Nat) : nextId a < nextId (nextId a :: a) := by
